@@ -810,10 +810,19 @@ def generate(repo: Path, outdir: Path) -> dict:
     lines.append('def guardActionTable : List (String × Nat × List Nat) := [')
     lines.append(',\n'.join(f'  ({_q(k)}, {ident}.length, [{", ".join(map(str, acts))}])' for k, ident, acts in actions))
     lines.append(']')
+    # wrapper -> native argument links (round 3)
+    from . import links as _links
+    sites, ltables, flows = _links.extract(repo, {f'{mod}.{py}': params for mod, py, cname, params, fmt, atoms, ids in natives})
+    lines += _links.lean_lines(sites, ltables, flows)
+    link_kinds = {}
+    for _, _, _, ls in sites:
+        for _, l in ls:
+            link_kinds[l[0]] = link_kinds.get(l[0], 0) + 1
     lines += ['', 'end Mahotas.Generated', '']
     changed = _write_if_changed(outdir / 'Guards.lean', '\n'.join(lines))
     bare = [k for k, _, acts in actions if 3 in acts]
     return dict(guards_changed=changed, guard_wrappers=len(table), guard_atoms_interpreted=ninterp, guard_atoms_opaque=nopaque,
+                link_sites=len(sites), link_kinds=link_kinds,
                 native_entry_points=len(ntable), native_atoms_interpreted=n_interp, native_atoms_opaque_or_parse=n_opaque,
                 bare_null_exits=bare)
 
